@@ -42,6 +42,11 @@ use quinn::{Connection as QuinnConnection, RecvStream, SendStream};
 /// Logging target for the file.
 const LOG_TARGET: &str = "litep2p::quic::connection";
 
+/// Bounds for the time protocols and in-flight data are given before an ended connection is closed
+/// at the QUIC level (see `QuicConnection::close_connection()`).
+const CLOSE_GRACE_MIN: Duration = Duration::from_millis(50);
+const CLOSE_GRACE_MAX: Duration = Duration::from_secs(1);
+
 /// QUIC connection error.
 #[derive(Debug)]
 enum ConnectionError {
@@ -245,11 +250,23 @@ impl QuicConnection {
     /// protocols (or pending substream futures) still exist, as they hold references to it. The
     /// connection has to be closed explicitly, the way dropping the socket does it for TCP:
     /// otherwise the remote is never told and keeps using a connection nobody listens on.
+    ///
+    /// The connection is not closed right away, though. `quinn::Connection::close()` abandons
+    /// unsent stream data, stops processing acknowledgements and (quinn 0.9) does not even send
+    /// `CONNECTION_CLOSE` while the congestion window is still filled by unacknowledged stream
+    /// data, in which case the remote is not told at all until its idle timeout. So first give
+    /// the protocols a few round trips to drop their substreams (data already written and the
+    /// FIN still reach the remote, as they do for TCP) and the in-flight data to be acknowledged.
+    /// If that ends the connection (the last handle is dropped, the remote closes) nothing is
+    /// left to do, otherwise whatever keeps it alive is cut off.
     async fn close_connection(&mut self) -> crate::Result<()> {
         let result = self
             .protocol_set
             .report_connection_closed(self.peer, self.endpoint.connection_id())
             .await;
+
+        let grace = (self.connection.rtt() * 3).clamp(CLOSE_GRACE_MIN, CLOSE_GRACE_MAX);
+        let _ = tokio::time::timeout(grace, self.connection.closed()).await;
         self.connection.close(0u32.into(), b"connection closed");
 
         result
